@@ -143,6 +143,15 @@ class Env:
 
                 cases = [(wrap_literals(self.expr(c)), wrap_literals(self.expr(v))) for c, v in j["case"]]
                 d = j.get("default")
+                if cases and all(v is not None for _, v in cases):
+                    # the public API: when(c).then(v).when(c2).then(v2)….otherwise(d)
+                    e = pdt.when(cases[0][0]).then(cases[0][1])
+                    for c, v in cases[1:]:
+                        e = e.when(c).then(v)
+                    if d is not None:
+                        dv = wrap_literals(self.expr(d))
+                        e = e.otherwise(dv if dv is not None else pdt.lit(None))
+                    return e
                 return CaseExpr(cases, wrap_literals(self.expr(d)) if d is not None else None)
             if "mapx" in j:
                 from pydiverse.transform._internal.tree.col_expr import wrap_literals
